@@ -15,7 +15,8 @@ def random_orthogonal(rng, d):
 
 
 def well_formed(rng, d=None, n_classes=None, variant='plain', dmax=8,
-                min_class=4, nmax=None, labels='range', order='C'):
+                min_class=4, nmax=None, labels='range', order='C',
+                nmin=None):
   """A well-formed labelled dataset in the sense of the C01/C03 quantifier:
   2<=d<=8 continuous features, n >= 4d, >=2 classes with >=4 members each."""
   d = int(d if d is not None else rng.randint(2, dmax + 1))
@@ -28,6 +29,10 @@ def well_formed(rng, d=None, n_classes=None, variant='plain', dmax=8,
     sizes = [int(per + rng.randint(0, 5)) for _ in range(c)]
   while sum(sizes) < 4 * d:
     sizes[-1] += 1
+  if nmin is not None and sum(sizes) < nmin:
+    add = nmin - sum(sizes)
+    for i_ in range(c):
+      sizes[i_] += add // c + (1 if i_ < add % c else 0)
   if nmax is not None:
     while sum(sizes) > max(nmax, 4 * d, c * min_class):
       i = int(np.argmax(sizes))
